@@ -112,7 +112,7 @@ def eval_vmf(rp, rng):
     r = np.einsum('...n,...nd->...d', ss, yn)
     nr = np.linalg.norm(r, axis=-1)
     D = y.shape[-1]
-    rb = nr / ss.sum(-1)
+    rb = np.minimum(nr / ss.sum(-1), 1.0)
     with np.errstate(all='ignore'):
         kap = np.clip((rb * D - rb ** 3) / (1 - rb ** 2), kmin, kmax)
     if np.abs(m.mean - r / np.maximum(nr, TINY)[..., None]).max() > 1e-9:
@@ -548,7 +548,7 @@ def mstep_check(name, mdl, yn, data, aff, salv, q, opts, li, k, rng):
         r = np.einsum('...kn,...nd->...kd', s_all, yn)
         nr = np.linalg.norm(r, axis=-1)
         D = y.shape[-1]
-        rb = nr / s_all.sum(-1)
+        rb = np.minimum(nr / s_all.sum(-1), 1.0)
         with np.errstate(all='ignore'):
             kap = np.clip((rb * D - rb ** 3) / (1 - rb ** 2), kmin, kmax)
         if np.abs(mdl.vmf.mean - r / np.maximum(nr, TINY)[..., None]).max() > 1e-8 or \
